@@ -32,7 +32,11 @@
        ContentSequence(seq, is_root, is_sr) (also what ContentItem.__setattr__ does on
        `item.ContentSequence = seq`), copy.deepcopy(seq), seq.find(name), seq.get_nodes() -
        is a NEW sequence with its own list and its own name index (built by __init__ from
-       the items); later operations on either sequence do not touch the other.
+       the items); later operations on either sequence do not touch the other;
+     reading: __getitem__ with an int or a slice (a plain list), __reversed__ (the Sequence mixin);
+     from_sequence over ALL fifteen value types (ds_check_x / to_item_x / from_sequence_x), including
+       the default name given to COMPOSITE / IMAGE / SCOORD / SCOORD3D / TCOORD / WAVEFORM datasets
+       that come without ConceptNameCodeSequence.
    The concept name [iname] is the equality class of the name under CodedConcept/Code
    __eq__ (scheme designator, code value, scheme VERSION; the meaning is ignored); a lookup
    key of either type (CodedConcept or pydicom Code) denotes the same class.
@@ -469,6 +473,50 @@ Definition construct (c : ctor) (root sr : bool) : res st :=
   | FromSeq ds => from_sequence ds root sr
   end.
 
+(* ---- reading: __getitem__ (int / slice), __reversed__ ------------------------------------------- *)
+(* ConstrainedList.__getitem__(slice): self._list[idx] - a plain list; step 0 raises ValueError *)
+Definition getitem_slice (s : st) (start stop step : option Z) : res (list item) :=
+  let stp := step_of step in
+  if stp =? 0 then Err EVALUE
+  else let '(f, l, _) := slice_indices start stop stp (zlen (items s)) in Ok (slice_get f l stp (items s)).
+
+(* collections.abc.Sequence.__reversed__: for i in reversed(range(len(self))): yield self[i] *)
+Definition reversed (s : st) : list (res item) :=
+  map (fun i => getitem_int s (Z.of_nat i)) (rev (seq 0 (length (items s)))).
+
+(* ---- from_sequence over ALL fifteen value types ------------------------------------------------- *)
+(* [dset] read with the full value-type table of _get_content_item_class / _assert_value_type:
+     d_vt: 0 = attribute missing, 1 TEXT, 2 CONTAINER, 3 CODE, 4 NUM, 5 PNAME, 6 DATE, 7 TIME, 8 DATETIME,
+           9 UIDREF, 10 COMPOSITE, 11 IMAGE, 12 SCOORD, 13 SCOORD3D, 14 TCOORD, 15 WAVEFORM, other = no value type
+     d_hasval: has ALL attributes required for its value type (two for SCOORD / SCOORD3D)
+   _from_dataset_base: the six classes COMPOSITE .. WAVEFORM have an OPTIONAL name - a dataset of these
+   types without ConceptNameCodeSequence is given the default name (SCT, 260753009, "Source") and enters
+   the name index under that name; for the other nine the missing name is an AttributeError. *)
+Definition vt_known (v : Z) : bool := (1 <=? v) && (v <=? 15).
+Definition vt_optname (v : Z) : bool := (10 <=? v) && (v <=? 15).
+Definition DEFAULT_NAME : Z := 18.
+
+Definition ds_check_x (root sr : bool) (d : dset) : option string :=
+  if negb (d_isds d) then Some ETYPE
+  else if d_vt d =? 0 then Some EATTR
+  else if negb (vt_known (d_vt d)) then Some EVALUE
+  else if (d_rel d =? 0) && negb root && sr then Some EATTR
+  else if negb (d_hasval d) then Some EATTR
+  else if negb (d_hasname d) && negb (vt_optname (d_vt d)) then Some EATTR
+  else if d_kids d =? 0 then None
+  else if d_kids d =? 1 then None
+  else if d_kids d =? 2 then Some EATTR
+  else Some EVALUE.
+
+Definition to_item_x (d : dset) : item :=
+  Item true (if d_hasname d then d_name d else DEFAULT_NAME) (d_rel d) (d_vt d =? 2) (negb (d_kids d =? 0)) (d_pay d).
+
+Definition from_sequence_x (ds : list dset) (root sr : bool) : res st :=
+  match first_err (ds_check_x root sr) ds with
+  | Some e => Err e
+  | None => init (map to_item_x ds) root sr
+  end.
+
 (* ---- boundary functions for the correspondence run -------------------------------------- *)
 Definition vitem (x : item) : val :=
   VL [VZ (iname x); VZ (irel x); VB (icont x); VB (inode x); VZ (ipay x)].
@@ -490,6 +538,11 @@ Fixpoint ins_sorted (x : item) (l : list item) : list item :=
   end.
 Definition sort_items (l : list item) : list item := fold_right ins_sorted [] l.
 
+(* fixed read probes: seq[i], seq[a:b:c] (a plain list), reversed(seq) *)
+Definition READ_INTS : list Z := [-1; 2; -9].
+Definition READ_SLICES : list (option Z * option Z * option Z) :=
+  [(Some (-1), Some 0, Some (-2)); (Some 1, None, Some 3); (Some (-2), Some 7, None); (Some 0, None, Some 0)].
+
 Definition observe (names : list Z) (qs : list item) (s : st) : val :=
   VL [vitems (items s);
       VL (map (fun n => vres (fun l => vitems (sort_items l)) (find s n)) names);
@@ -497,7 +550,10 @@ Definition observe (names : list Z) (qs : list item) (s : st) : val :=
       VL (map (fun x => vres VB (contains s x)) qs);
       vres vitems (get_nodes s);
       VB (is_root s); VB (is_sr s);
-      VL (map (fun x => VZ (count s x)) qs)].
+      VL (map (fun x => VZ (count s x)) qs);
+      VL [VL (map (fun i => vres vitem (getitem_int s i)) READ_INTS);
+          VL (map (fun q => match q with (a, b, c) => vres vitems (getitem_slice s a b c) end) READ_SLICES);
+          VL (map (vres vitem) (reversed s))]].
 
 Fixpoint run_ops (names : list Z) (qs : list item) (s : st) (ops : list op) : list val :=
   match ops with
@@ -605,4 +661,12 @@ Definition run_multi (root sr : bool) (c : ctor) (names : list Z) (qs : list ite
   match construct c root sr with
   | Err e => VErr e
   | Ok s => VL (VL [observe names qs s] :: run_mops names qs [s] ops)
+  end.
+
+(* a history from from_sequence over all value types *)
+Definition run_xhistory_x (root sr : bool) (ds : list dset) (names : list Z) (qs : list item)
+           (ops : list xop) : val :=
+  match from_sequence_x ds root sr with
+  | Err e => VErr e
+  | Ok s => VL (observe names qs s :: run_xops names qs s ops)
   end.
